@@ -2,7 +2,7 @@
 from props import clientprops as cp
 
 LEVEL = cp.LEVEL
-TRUSTED_EXTRA = ['harness/pytrans6.py: _Protocol.connection_lost of hpfeeds/asyncio/client.py is translated into coq/AioGen.v on every run and proved to be the callback part of the model\'s do_lost (coq/AioGenEq.v, no axioms); the reconnect / close coroutines and the other clients are hand-written, tied by the correspondence check only']
+TRUSTED_EXTRA = ['harness/pytrans6.py: _Protocol.connection_lost and the start of the close() coroutine of hpfeeds/asyncio/client.py (and connectionLost of the Twisted glue) are translated into coq/AioGen.v on every run and proved to be the callback part of the model\'s do_lost (coq/AioGenEq.v, no axioms); the reconnect / close coroutines and the other clients are hand-written, tied by the correspondence check only']
 ASSUMPTIONS = cp.ASSUMPTIONS
 
 
